@@ -480,10 +480,14 @@ func (req *SrvReq) Flush() {
 func (conn *Conn) FidGet(fidno uint32) *SrvFid {
 	conn.Lock()
 	fid, present := conn.fidpool[fidno]
+	if present {
+		verifPoint("fid.lookup", fid, fidno, 0)
+	}
 	conn.Unlock()
 	if present {
 		fid.Lock()
 		if fid.creating || fid.dead {
+			verifPoint("fid.getinc", fid, uint32(fid.refcount), 1)
 			/* still being created by an unanswered request (the implementation
 			   has not set it up yet), or its last reference was dropped while we
 			   looked it up: other requests must not see it */
@@ -491,6 +495,7 @@ func (conn *Conn) FidGet(fidno uint32) *SrvFid {
 			return nil
 		}
 		fid.refcount++
+		verifPoint("fid.getinc", fid, uint32(fid.refcount), 0)
 		fid.Unlock()
 	}
 
@@ -514,6 +519,7 @@ func (conn *Conn) FidNew(fidno uint32) *SrvFid {
 	fid.creating = true
 	fid.Fconn = conn
 	conn.fidpool[fidno] = fid
+	verifPoint("fid.new", fid, fidno, 0)
 	conn.Unlock()
 
 	return fid
@@ -536,6 +542,7 @@ func (fid *SrvFid) retain() {
 		fid.linked = true
 	}
 	fid.creating = false
+	verifPoint("fid.retain", fid, uint32(fid.refcount), verifB(fid.linked))
 	fid.Unlock()
 	conn.Unlock()
 }
@@ -546,6 +553,7 @@ func (fid *SrvFid) unlink() {
 	fid.Lock()
 	linked := fid.linked
 	fid.linked = false
+	verifPoint("fid.unlink", fid, uint32(fid.refcount), verifB(linked))
 	fid.Unlock()
 	if linked {
 		fid.DecRef()
@@ -556,6 +564,7 @@ func (fid *SrvFid) unlink() {
 func (fid *SrvFid) IncRef() {
 	fid.Lock()
 	fid.refcount++
+	verifPoint("fid.incref", fid, uint32(fid.refcount), 0)
 	fid.Unlock()
 }
 
@@ -568,6 +577,7 @@ func (fid *SrvFid) DecRef() {
 	if n == 0 {
 		fid.dead = true
 	}
+	verifPoint("fid.decref", fid, uint32(n), 0)
 	fid.Unlock()
 
 	if n != 0 {
@@ -579,6 +589,7 @@ func (fid *SrvFid) DecRef() {
 	if conn.fidpool[fid.fid] == fid {
 		delete(conn.fidpool, fid.fid)
 	}
+	verifPoint("fid.destroy", fid, 0, 0)
 	conn.Unlock()
 
 	if fop, ok := (conn.Srv.ops).(SrvFidOps); ok {
